@@ -1031,6 +1031,16 @@ class Executor:
             return h.get(k)
         if isinstance(h, Obj):
             return self.call_method(base, "__getitem__", [idx], {}, node)
+        if isinstance(h, Mat) and isinstance(idx, tuple) and len(idx) == 3 and isinstance(idx[0], str) and idx[0] == "ix_":
+            # M[np.ix_(rows, cols)]: the sub-matrix with entry (a,b) = M[rows[a], cols[b]] (rows / cols may repeat)
+            rs, cs = self.as_alist(self.deref(idx[1])), self.as_alist(self.deref(idx[2]))
+            t = fresh("t")
+            self.require(z3.ForAll([t], z3.Implies(z3.And(0 <= t, t < rs.len), z3.And(0 <= z3.Select(rs.arr, t), z3.Select(rs.arr, t) < h.nr))), "safe.IndexError-rows", node)
+            self.require(z3.ForAll([t], z3.Implies(z3.And(0 <= t, t < cs.len), z3.And(0 <= z3.Select(cs.arr, t), z3.Select(cs.arr, t) < h.nc))), "safe.IndexError-cols", node)
+            a, b = z3.Int("a!ix"), z3.Int("b!ix")
+            re = z3.Lambda([a, b], z3.Select(h.re, z3.Select(rs.arr, a), z3.Select(cs.arr, b)))
+            im = z3.Lambda([a, b], z3.Select(h.im, z3.Select(rs.arr, a), z3.Select(cs.arr, b)))
+            return self.alloc(Mat(rs.len, cs.len, re, im))
         if isinstance(h, Mat):
             if isinstance(idx, tuple) and len(idx) == 2:
                 i = self.norm_index(idx[0], h.nr, node)
@@ -1731,6 +1741,16 @@ class Executor:
                 k = ks.as_long()
             self.store(base, h.set(k, val), node, "[k] =")
             return
+        if isinstance(h, Mat) and isinstance(idx, tuple) and len(idx) == 3 and isinstance(idx[0], str) and idx[0] == "ix_":
+            # M[np.ix_(rows, cols)]: the sub-matrix with entry (a,b) = M[rows[a], cols[b]] (rows / cols may repeat)
+            rs, cs = self.as_alist(self.deref(idx[1])), self.as_alist(self.deref(idx[2]))
+            t = fresh("t")
+            self.require(z3.ForAll([t], z3.Implies(z3.And(0 <= t, t < rs.len), z3.And(0 <= z3.Select(rs.arr, t), z3.Select(rs.arr, t) < h.nr))), "safe.IndexError-rows", node)
+            self.require(z3.ForAll([t], z3.Implies(z3.And(0 <= t, t < cs.len), z3.And(0 <= z3.Select(cs.arr, t), z3.Select(cs.arr, t) < h.nc))), "safe.IndexError-cols", node)
+            a, b = z3.Int("a!ix"), z3.Int("b!ix")
+            re = z3.Lambda([a, b], z3.Select(h.re, z3.Select(rs.arr, a), z3.Select(cs.arr, b)))
+            im = z3.Lambda([a, b], z3.Select(h.im, z3.Select(rs.arr, a), z3.Select(cs.arr, b)))
+            return self.alloc(Mat(rs.len, cs.len, re, im))
         if isinstance(h, Mat):
             if isinstance(idx, tuple) and len(idx) == 2:
                 i = self.norm_index(idx[0], h.nr, node)
